@@ -29,9 +29,11 @@ type Event struct {
 
 // Plan selects a crash or fault point (1-based index of relevant calls; 0 = none).
 type Plan struct {
-	KillAt int
-	FailAt int
-	Errno  syscall.Errno
+	KillAt   int
+	FailAt   int
+	Errno    syscall.Errno
+	SignalAt int            // deliver Signal to the process at the entry of this call
+	Signal   syscall.Signal // e.g. SIGINT
 }
 
 // Result of a traced run.
@@ -216,6 +218,9 @@ func run(bin string, args []string, dir string, stdin []byte, relevant func(stri
 						}
 						res.Exit = 137
 						goto done
+					}
+					if plan.SignalAt == j && plan.Signal != 0 {
+						syscall.Kill(pid, plan.Signal)
 					}
 					if plan.FailAt == j {
 						regs.Orig_rax = ^uint64(0) // no such syscall: the kernel skips it
